@@ -6,7 +6,7 @@ from checks import common_core as cc
 def run_cases(pid, sub, seed, tier, n, *, case_timeout=120, jobs=16, crash_policy=None, offset=0, features=None, engine="native (one process per configuration)", binname="loops"):
     d = cc.build(features)
     argv = [os.path.join(d, binname), sub, "--seed", str(seed), "--tier", tier]
-    cs = vlib.fan_out(argv, n, engine=engine, case_timeout=case_timeout, jobs=jobs, shard=1, crash_policy=crash_policy)
+    cs = vlib.fan_out(argv, n, engine=engine, case_timeout=case_timeout, jobs=jobs, shard=1, crash_policy=crash_policy, confirm_timing=True)
     for c in cs:
         c.idx += offset
     return cs
